@@ -56,7 +56,7 @@ def build(tier, seed, exclude):
     quick = tier == "quick"
     to = 110 if quick else 600
     params = ", ".join(f"c{i}: int" for i in range(NS)) + ", k: int, n: int"
-    pre = [" and ".join(f"0 <= c{i} < 3" for i in range(NS)), "0 <= k <= 3 and 1 <= n <= 3"]
+    pre = [" and ".join(f"0 <= c{i} < 4" for i in range(NS)), "0 <= k <= 3 and 1 <= n <= 3"]
     ch = "[" + ", ".join(f"T.real(c{i})" for i in range(NS)) + "]"
     for shape in ("indep", "forkjoin", "split", "splitcomb"):
         g.cond(f"h_{shape}", params, pre, f"""
@@ -69,4 +69,4 @@ def build(tier, seed, exclude):
         return False
     """, timeout=120, kind="twin")
     return g.spec(bounds={"shapes": ["indep", "forkjoin", "split (split node + chain)", "splitcomb (two splits, outer product, combine)"],
-                          "schedule": f"{NS} ternary decisions", "max_concurrent": "unlimited, 1..3", "split lengths": "1-3"})
+                          "schedule": f"{NS} four-way decisions", "max_concurrent": "unlimited, 1..3", "split lengths": "1-3"})
